@@ -18,10 +18,12 @@ def mutate(rng, text, kind):
             if rng.random() < 0.1: out.append("")
             if not (l == "" and rng.random() < 0.5): out.append(l)
         return "\n".join(out)
+    if kind == "lonecr":   # a carriage return that is not a line break: inside a long string and inside a long comment
+        return "local  zz = [[a\rb]] --[[c\rd]]\n" + text
     if kind == "formatted": return None  # filled by the caller with the formatted text
     raise ValueError(kind)
 
-KINDS = ["asis", "crlf", "nofinalnl", "firstline", "lastline", "spaces", "blank", "formatted"]
+KINDS = ["asis", "crlf", "nofinalnl", "firstline", "lastline", "spaces", "blank", "lonecr", "formatted"]
 
 def run(res):
     proof = proof_stage(res, "C18", extra_obligations=1)
@@ -47,7 +49,7 @@ def run(res):
                 with open(os.path.join(d, "f%04d_%s.lua" % (n, k)), "w", encoding="utf-8", newline="") as fh:
                     fh.write(t)
         # tiny hand cases: empty file, one line without newline, only a newline
-        for i, t in enumerate(["", "local x = 1", "\n", "local  x=1\n", "x=1\ny=2\nz=3", "-- c\n\n\n\nlocal a\n"]):
+        for i, t in enumerate(["", "local x = 1", "\n", "local  x=1\n", "x=1\ny=2\nz=3", "-- c\n\n\n\nlocal a\n", "local s = [[a\rb]]\nlocal  x = 1\n"]):
             n += 1
             open(os.path.join(d, "f%04d_tiny%d.lua" % (n, i)), "w", newline="").write(t)
         lib = sh([SVH, "c18", d]).stdout.splitlines()
@@ -100,7 +102,7 @@ def run(res):
         res.coverage.update(
             evaluations=tot.get("files", 0), distinct_nontrivial=tot.get("differing", 0),
             rule="(original, formatted) pairs from the repository's test inputs under %d mutation kinds (as is, CRLF, no final newline, first/last line changed, scattered spacing changes = many hunks, "
-                 "blank lines inserted/deleted, already formatted) plus 6 tiny files; each through `stylua --check` in the json, unified, summary and standard formats; a pair is non-trivial when original <> formatted; "
+                 "blank lines inserted/deleted, a lone carriage return inside a long string and a long comment, already formatted) plus 7 tiny files; each through `stylua --check` in the json, unified, summary and standard formats; a pair is non-trivial when original <> formatted; "
                  "file names are unique per (input, mutation)" % len(KINDS),
             samples=samples or ["(no differing file)"], input_distribution=dict(mutations=dist, exit_codes=exit_codes, **tot),
             correspondence="DiffJson.mismatches (running positions) on similar's script = the binary's JSON, all six fields; the extracted patchers applied to the binary's own JSON and unified output rebuild the library's formatted text; presence of a diff/listing iff the texts differ")
